@@ -337,3 +337,40 @@ pub fn humanize_lint_type(db: &DbIndex, typ: &LuaType) -> String {
         _ => humanize_type(db, typ, RenderLevel::Simple),
     }
 }
+
+/// Verification hooks (cargo feature `verif`, off by default): the decision functions of
+/// `DiagnosticContext` evaluated for a given file and configuration. Adds code only.
+#[cfg(feature = "verif")]
+pub mod verif {
+    use super::*;
+    use crate::Emmyrc;
+    use emmylua_parser::LuaLanguageLevel;
+
+    pub fn checker_enabled(
+        db: &DbIndex,
+        file_id: FileId,
+        emmyrc: &Emmyrc,
+        code: DiagnosticCode,
+    ) -> bool {
+        DiagnosticContext::new(file_id, db, Arc::new(LuaDiagnosticConfig::new(emmyrc)))
+            .is_checker_enable_by_code(&code)
+    }
+
+    pub fn severity(
+        db: &DbIndex,
+        file_id: FileId,
+        emmyrc: &Emmyrc,
+        code: DiagnosticCode,
+    ) -> Option<DiagnosticSeverity> {
+        DiagnosticContext::new(file_id, db, Arc::new(LuaDiagnosticConfig::new(emmyrc)))
+            .get_severity(code)
+    }
+
+    pub fn default_enabled(code: DiagnosticCode, level: LuaLanguageLevel) -> bool {
+        is_code_default_enable(&code, level)
+    }
+
+    pub fn default_severity(code: DiagnosticCode) -> DiagnosticSeverity {
+        get_default_severity(code)
+    }
+}
